@@ -1015,7 +1015,14 @@ def _g_node(em: Em, kind: str, d: int, tern_ok: bool, ind: int) -> None:
             em.tok('[')
             g_args(em, 1, tern_ok, ind + 1, kw_ok=False, only_strings=True)
             em.tok(']')
-            if em.chance(10):
+            if em.chance(25):
+                # a leading list FOLLOWED by further arguments: not the documented single-list form, nothing may be flattened away
+                em.tok(',')
+                em.tok(em.pick(["'extra.c'", "'x/y.c'", "'z.c'"]))
+                if em.chance(40):
+                    em.tok(',')
+                    em.tok(em.pick(["'more.c'", "['nested.c']"]))
+            elif em.chance(10):
                 em.tok(',')
         else:
             g_args(em, 1, tern_ok, ind, kw_ok=False, only_strings=True)
